@@ -263,6 +263,52 @@ def r5_recorded(m):
     return r
 
 
+def r8_intrinsic_tables(m):
+    r = RuleResult("C16.R8", "the list of names the intrinsic matcher recognises and the tables its arity check indexes agree, per standard")
+    r.floor = 2
+    for std in ("f2003", "f2008"):
+        k = m.std_class(std, "Intrinsic_Name")
+        if k is None:
+            r.error("Intrinsic_Name missing in %s" % std)
+            continue
+        def attr(name):
+            for kk in m.classes[k]["mro"]:
+                ent = m.classes[kk]["own"].get(name)
+                if ent is not None:
+                    return ent
+            return None
+        fn, gen, spec = attr("function_names"), attr("generic_function_names"), attr("specific_function_names")
+        if fn is None or gen is None or spec is None or "value" not in fn or "entries" not in gen or "entries" not in spec:
+            r.error("%s Intrinsic_Name: function_names / generic_function_names / specific_function_names are not plain tables" % std)
+            continue
+        r.instances += 1
+        names, g, sp = set(fn["value"]), gen["entries"], spec["entries"]
+        where = m.class_loc(k) if hasattr(m, "class_loc") else None
+        missing = sorted((set(g) | set(sp)) - names)
+        extra = sorted(names - (set(g) | set(sp)))
+        r.ob(not missing and not extra, "%s: %d names = %d generic + %d specific" % (std, len(names), len(g), len(sp)))
+        if missing:
+            r.fail("%s|Intrinsic_Name|unrecognised" % std, "%s: %s are intrinsic functions of the tables but not in Intrinsic_Name.function_names: a "
+                   "reference to them is never an Intrinsic_Function_Reference" % (std, missing[:6]), where)
+        if extra:
+            r.fail("%s|Intrinsic_Name|untabled" % std, "%s: %s are matched as intrinsic names but have no entry in the generic/specific tables "
+                   "(KeyError in the arity check)" % (std, extra[:6]), where)
+        bad_spec = sorted(a for a, b in sp.items() if b not in g)
+        r.ob(not bad_spec)
+        if bad_spec:
+            r.fail("%s|Intrinsic_Name|specific-target" % std, "%s: specific names %s map to a generic name that has no arity entry" % (std, bad_spec[:6]), where)
+        bad_arity = sorted(a for a, b in g.items() if not (isinstance(b, dict) and isinstance(b.get("min"), int) and b["min"] >= 0
+                                                           and (b.get("max") is None or (isinstance(b.get("max"), int) and b["max"] >= b["min"]))))
+        r.ob(not bad_arity)
+        if bad_arity:
+            r.fail("%s|Intrinsic_Name|arity" % std, "%s: arity entries of %s are not {min: n>=0, max: None or >=min}" % (std, bad_arity[:6]), where)
+        lower = sorted(a for a in names if a != a.upper())
+        r.ob(not lower)
+        if lower:
+            r.fail("%s|Intrinsic_Name|case" % std, "%s: %s are not upper case; the matcher compares the upper-cased text" % (std, lower[:6]), where)
+    return r
+
+
 def run(m, tier):
     ctx = cb.get_ctx(m)
     blocks = tables.engine_instances(m, "BlockBase")
@@ -281,11 +327,11 @@ def run(m, tier):
     r9.title = "creating a parser clears the symbol tables of earlier parses on every returning path (shared with C09.R2)"
     for f in r9.findings:
         f.rule = "C16.R7"
-    results = [r1_scoping_set(m, ctx, blocks), r2, r3_lookup(m), r4_intrinsic(m), r5_recorded(m), r8, r9]
+    results = [r1_scoping_set(m, ctx, blocks), r2, r3_lookup(m), r4_intrinsic(m), r5_recorded(m), r8, r9, r8_intrinsic_tables(m)]
     expl = ("Decides structural clauses of C16: the set of scoping classes equals the property's list and each opens a block-engine "
             "call site; scope enter/exit pairing on every path (typestate, shared with C09); lookup consults own symbols, used modules "
             "and ancestors only, and a new scope is nested under the current one; an intrinsic reference is produced only after an "
             "unsuccessful lookup in the current scope chain (path-sensitive over both standards' matchers); every matched declaration "
             "is passed to add_to_symbol_table and every matched USE with a current scope to add_use_symbols; table keys are "
-            "case-normalised. Does NOT decide table contents for every program nor cache interactions during backtracking.")
+            "case-normalised; the intrinsic name list equals the union of the generic and specific tables in each standard. Does NOT decide table contents for every program nor cache interactions during backtracking.")
     return results, expl
